@@ -443,7 +443,7 @@ EXTRA_CHECKS = {"C14": ("gate-smt", "./check C14 --tier quick", "./check C14 --t
 MANIFEST_TEXT = {
     "C08": dict(
         design_ref="DESIGN.md §4-C08",
-        level_text="PARTIAL. Bounded model checking of the real wind_down (and of the whole connection task for the keepalive case) with a scripted transport: from a table holding an established flow with delivered data, a pending open and a pending bind, with frames queued and one frame possibly still in flight, and for every solver-chosen behaviour of the transport (sink ready/failing, close ok/failing, source ending or failing), the task completes; afterwards no flow remains, reads return everything delivered then EOF, writes fail with BrokenPipe, the pending open resolves and the pending bind is answered false, later API calls report Closed, and after a local drop the queued frames were handed to the sink in order before close. A keepalive timeout on a transport that stays silent must end the task (the pinned tree waited for the dead peer forever).",
+        level_text="PARTIAL. Bounded model checking of the real wind_down with a scripted transport, one instance per ingredient (wind_down treats table entries and the outbound queue independently): a table entry of each kind (established with delivered data, pending open, pending bind), two frames queued before the end, the sink's readiness and the close result chosen by the solver, the source ending with end-of-stream, with an error, or staying silent: the future completes; afterwards no flow remains, reads return what was delivered then EOF, writes fail with BrokenPipe, the pending open resolves with None and the pending bind with false, the WebSocket is closed; after a local drop the queued frames were handed to the sink in order before close, after any other end nothing is transmitted; the sender future (the branch Task::start selects on) polled once and then cancelled leaves every queued frame in the sink or in the queue; later API calls report Closed. When the connection ended for a non-local reason and the source stays silent, wind_down must still complete - the pinned tree waited for the dead peer for ever (repaired). The combined scenario (three flows, two queued frames) runs in the thorough tier. NOT run (beyond reach): a frame still in flight inside the source, the whole Task::start future through a keepalive timeout",
         level_note="Cuts are placed between steps of the connection task, not inside tokio; pending operations are represented by their channel ends. Trusted: the mux models (see C02).",
     ),
     "C14": dict(
@@ -460,7 +460,7 @@ MANIFEST_TEXT = {
     ),
     "C16": dict(
         design_ref="DESIGN.md §4-C16",
-        level_text="PARTIAL. Bounded model checking of the real schedule_ping_task under a virtual clock (model of tokio::time): for the enumerated (interval, timeout) pairs and every pong history the solver can choose over 3-5 ticks, exactly one Ping is sent per interval, KeepaliveTimeout is reported exactly when more than T has elapsed since the last pong or start-up (so never before T and never later than T+I after it), nothing happens when the interval is disabled, and the options API clamps T >= I for all values. The clause 'each ping answered within T never times out' is posed as stated; the solver returns histories where two in-time answers are more than T apart (the loop measures from the last pong, not from the ping) - recorded as a known finding.",
+        level_text="PARTIAL. Bounded model checking of the real schedule_ping_task under a virtual clock (model of tokio::time): for the enumerated (interval, timeout) pairs and every pong history the solver can choose over 3-5 ticks, exactly one Ping is sent per interval, KeepaliveTimeout is reported exactly when more than T has elapsed since the last pong or start-up (so never before T and never later than T+I after it), nothing happens when the interval is disabled, and the options API clamps T >= I for all whole-second values and for seconds 0..3 x tenths 0..9 (sub-second settings). The clause 'each ping answered within T never times out' is posed as stated; the solver returns histories where two in-time answers are more than T apart (the loop measures from the last pong, not from the ping) - recorded as a known finding.",
         level_note="Trusted: the tokio::time model (interval: first tick immediate, then every period, Skip behaviour), the other mux models. Ticks are exactly on time; consequences of the timeout for pending calls are C08's. Bounds: (I,T) pairs listed in the evidence, <= 5 ticks.",
     ),
     "C02": dict(
@@ -485,7 +485,7 @@ MANIFEST_TEXT = {
     ),
     "C06": dict(
         design_ref="DESIGN.md §4-C06",
-        level_text='Bounded model checking of the close paths from an arbitrary bounded flow table: dropping a stream removes its slot and sends Reset exactly if Finish was not sent; a peer Reset is never answered, leaves queued data readable then EOF, makes writes fail with BrokenPipe; the table shrinks by exactly one; a bystander flow is untouched; re-opening the released id yields a flow with fresh credit, flags, queue and counters. One step from every bounded state covers open/close histories of any length.',
+        level_text='Bounded model checking of the close paths from an arbitrary bounded flow table: dropping a stream removes its slot and sends Reset exactly if Finish was not sent; a peer Reset is never answered, leaves queued data readable then EOF, makes writes fail with BrokenPipe; the table shrinks by exactly one; a bystander flow is untouched; re-opening the released id yields a flow with fresh credit, flags, queue and counters. The handle of an old, peer-aborted stream dropped after its id was reused must leave the new stream alone - this fails on the current tree and is recorded as a known finding (a drop notification carries only the id). One step from every bounded state covers open/close histories of any length.',
         level_note='Bounds: <= 3 slots; closed flow with symbolic credit/flags and one queued frame. Trusted: Kani/CBMC; sequential models of tokio channels/io/time, hashbrown, parking_lot (a lock taken while held = panic), bytes, tracing; enum layout pins in the scratch copy; the hand-written composition argument in DESIGN.md. Single-threaded execution: no real interleavings except the sequentialised race of C12.',
     ),
     "C07": dict(
@@ -496,16 +496,16 @@ MANIFEST_TEXT = {
     "C11": dict(
         design_ref="DESIGN.md §4-C11",
         level_text="Bounded model checking of the datagram path: send_datagram refuses a host longer than 255 octets with DatagramHostTooLong and no other effect, and otherwise queues exactly one frame carrying flow id, host, port and payload unchanged (all symbolic, incl. id 0 and empty fields); the receive step from every buffer occupancy appends at the tail or drops when full, always returns Ok without blocking and without touching stream slots; what send_datagram emits for payloads of 0..4 bytes is accepted by the peer's decoder (the pinned tree rejected 0..3 bytes and tore the connection down).",
-        level_note='Bounds: hosts 0,1,2 (255/256 in the thorough tier), payloads <= 4 bytes, buffer size 2. Trusted: Kani/CBMC; sequential models of tokio channels/io/time, hashbrown, parking_lot (a lock taken while held = panic), bytes, tracing; enum layout pins in the scratch copy; the hand-written composition argument in DESIGN.md. Single-threaded execution: no real interleavings except the sequentialised race of C12.',
+        level_note='Bounds: hosts 0,1,2 octets with symbolic contents (the refusal of a 256-octet host runs in the thorough tier; the instances with 3 and 255 octets are switched off: engine imprecision, DESIGN.md §8), payloads <= 4 bytes, buffer size 2. Trusted: Kani/CBMC; sequential models of tokio channels/io/time, hashbrown, parking_lot (a lock taken while held = panic), bytes, tracing; enum layout pins in the scratch copy; the hand-written composition argument in DESIGN.md. Single-threaded execution: no real interleavings except the sequentialised race of C12.',
     ),
     "C12": dict(
         design_ref="DESIGN.md §4-C12",
-        level_text="PARTIAL. Sequentialised two-party race decided by the solver over the real poll_obtain_write_permission, acknowledge and disallow_write with the real futures AtomicWaker: the other party's whole operation is injected before the writer's poll, at each place where the poll logs (scheduling points provided by the tracing model), or after it; whenever the poll returns Pending although credit arrived or the stream was closed, a wake-up must have been delivered, and the final credit equals grants minus permissions. This reproduces the pinned tree's lost wake-up (acknowledge between the credit load and the waker registration). Interleavings at the granularity of single atomic operations and weak-memory behaviours are outside what Kani can express.",
+        level_text="PARTIAL. Sequentialised two-party race decided by the solver over the real poll_obtain_write_permission, acknowledge and disallow_write with the real futures AtomicWaker: the other party's whole operation is injected before the writer's poll, at each place where the poll logs (scheduling points provided by the tracing model), or after it; whenever the poll returns Pending although credit arrived or the stream was closed, a wake-up must have been delivered, and the final credit equals grants minus permissions. This reproduces the pinned tree's lost wake-up (acknowledge between the credit load and the waker registration). Two further instances observe what is visible at the very moment the blocked writer's waker fires: the returned credit / the closed flag must already be there (a writer re-polled at that moment on another thread would otherwise sleep for ever). Interleavings at the granularity of single atomic operations and weak-memory behaviours are outside what Kani can express.",
         level_note='Sequential consistency, whole-operation injection at log sites only, one writer. A witness guards against the scheduling points disappearing. Trusted: Kani/CBMC; sequential models of tokio channels/io/time, hashbrown, parking_lot (a lock taken while held = panic), bytes, tracing; enum layout pins in the scratch copy; the hand-written composition argument in DESIGN.md. Single-threaded execution: no real interleavings except the sequentialised race of C12.',
     ),
     "C15": dict(
         design_ref="DESIGN.md §4-C15",
-        level_text='Bounded model checking of bind requests on the real code: one Bind frame per request under a fresh non-zero id with the requested type, host and port; with a second bind pending and answered first, each request resolves exactly once with its own verdict (Finish -> true, Reset -> false, teardown -> false/Closed) and the ids are released; the responder shows the application exactly the request and emits exactly one answer (Finish on accept, Reset on reject or drop) - the pinned tree sent a second frame when the request object was dropped after replying.',
+        level_text='Bounded model checking of bind requests on the real code: one Bind frame per request under a fresh non-zero id with the requested type, host and port; with a second bind pending and answered first, each request resolves exactly once with its own verdict (Finish -> true, Reset -> false, teardown -> false/Closed) and the ids are released; a second request that reuses the id of an answered one before the first requester is polled again is left alone by the completion of the first; the responder shows the application exactly the request and emits exactly one answer (Finish on accept, Reset on reject or drop) - the pinned tree sent a second frame when the request object was dropped after replying.',
         level_note='Bounds: two concurrent binds, host 1 byte. Trusted: Kani/CBMC; sequential models of tokio channels/io/time, hashbrown, parking_lot (a lock taken while held = panic), bytes, tracing; enum layout pins in the scratch copy; the hand-written composition argument in DESIGN.md. Single-threaded execution: no real interleavings except the sequentialised race of C12.',
     ),
     "C10": dict(
@@ -521,7 +521,7 @@ MANIFEST_TEXT = {
     ),
     "C18": dict(
         design_ref="DESIGN.md §4-C18",
-        level_text="Bounded model checking of the real penguin-socks readers and writers against a reference grammar written from RFC 1928 / SOCKS4a: for every message length around each field boundary (all truncation points) and ALL octet values, the readers must return exactly (command, address, port), consume exactly the request, and fail on truncated/unterminated/unknown input; replies and the UDP relay datagram must be byte-exact as a conforming client parses them. The solver covers all octet values, which is how the ATYP-after-address reply and the unterminated SOCKS4 field were found.",
+        level_text="Bounded model checking of the real penguin-socks readers and writers against a reference grammar written from RFC 1928 / SOCKS4a: for every message length around each field boundary (all truncation points) and ALL octet values, the readers must return exactly (command, address, port), consume exactly the request, and fail on truncated/unterminated/unknown input; replies and the UDP relay datagram must be byte-exact as a conforming client parses them. The solver covers all octet values, which is how the ATYP-after-address reply and the unterminated SOCKS4 field were found. NOT covered: the SOCKS5 request reader (v5::read_request) and the three longest SOCKS4/4a shapes - their instances are written but do not finish within 3000 s / 20 GB.",
         level_note="Trusted: Kani/CBMC, the tokio io shim (read_exact/read_uN/read_until/write_all written from tokio's docs), the bytes model, the reference grammar. Bounds: domain/user-id <= 2 octets, payload <= 3 octets; IP addresses that are rendered as text are fixed constants (formatting is std code); longer fields are outside the claim.",
     ),
     "C09": dict(
